@@ -101,3 +101,68 @@ Proof.
   cbn [app]. unfold mins_er, mins_sd. rewrite Hm. repeat split; assumption.
 Qed.
 Print Assumptions src_ddm_refines_spec.
+
+(** * ECDD-WT: `_update` (EWMA chart against the class-level control-limit lambdas, selected by the configured
+      average run length) and `reset` *)
+Section EqECDD.
+  Context {A : Arith}.
+  Definition ecdd_cfg_t (c : ecdd_cfg A) := (ec_min c, ec_arl c, ec_lambda c, ec_warn c).
+  (** the last slot is `_lambda_div_two_minus_lambda`, computed once by the (untranslated) constructor *)
+  Definition ecdd_t (c : ecdd_cfg A) (s : ecdd_st A) :=
+    (ecdd_cfg_t c, cn s, cdrift s, mean_t (cp s), ewma_t (cz s), cwarning s, div (ec_lambda c) (sub two (ec_lambda c))).
+
+  Lemma ECDD_update_eq : forall c s v, (0 <= cn s)%Z -> (0 <= m_n (cp s))%Z ->
+    ECDDWT__update (ecdd_t c s) v = Ok (ecdd_t c (ecdd_step c s v), tt).
+  Proof.
+    intros c [n p z d w] v Hn Hm. cbn in Hn, Hm.
+    unfold ECDDWT__update, Mean_update, EWMA_update, ecdd_t, ecdd_cfg_t, ecdd_step, ecdd_zvar, ecdd_check, control_limit, lit,
+      mean_update, ewma_update, incr_op, mean_t, ewma_t, one, two, zero.
+    cbn -[powN Z.mul Z.to_nat].
+    destruct (Z.ltb_spec (n + 1) 0); [lia|]. cbn -[powN Z.mul Z.to_nat].
+    destruct (Z.ltb_spec (m_n p + 1) 0); [lia|]. cbn -[powN Z.mul Z.to_nat].
+    destruct (Z.leb (ec_min c) (n + 1)); cbn -[powN Z.mul Z.to_nat]; [|reflexivity].
+    destruct (Z.eqb (ec_arl c) 100); [|destruct (Z.eqb (ec_arl c) 400)];
+      repeat match goal with |- context [if ?b then _ else _] => destruct b eqn:? end; reflexivity.
+  Qed.
+
+  Lemma ECDD_reset_eq : forall c s, leb (ofZ 0) (ec_lambda c) && leb (ec_lambda c) (ofZ 1) = true ->
+    ECDDWT_reset (ecdd_t c s) = Ok (ecdd_t c (ecdd_init c), tt).
+  Proof.
+    intros c s H. unfold ECDDWT_reset, ECDDWT_super_BaseSPC_reset, ECDDWT_super_BaseConceptDrift_reset, Mean_init, EWMA_init, ecdd_t, ecdd_cfg_t.
+    cbn. rewrite H. reflexivity.
+  Qed.
+End EqECDD.
+
+Lemma g_ecdd_run_eq : forall (c : ecdd_cfg RealA) vs pre,
+  g_run ECDDWT__update (ecdd_t c (ecdd_run c pre)) vs = Ok (ecdd_t c (ecdd_run c (pre ++ vs))).
+Proof.
+  intros c vs. induction vs as [|v r IH]; intros pre; [rewrite app_nil_r; reflexivity|].
+  cbn [g_run].
+  assert (Hinv : cn (ecdd_run c pre) = Z.of_nat (length pre) /\ m_n (cp (ecdd_run c pre)) = Z.of_nat (length pre)).
+  { clear. induction pre as [|x pre IHp] using rev_ind; [split; reflexivity|].
+    rewrite ecdd_run_snoc. destruct IHp as [Hn Hp]. unfold ecdd_step.
+    assert (Hl : (Z.of_nat (length pre) + 1 = Z.of_nat (length (pre ++ [x])))%Z) by (rewrite app_length; cbn; lia).
+    destruct (ec_min c <=? _)%Z; [destruct (ecdd_check _ _ _ _ _)|]; cbn; rewrite ?Hn, ?Hp; split; exact Hl. }
+  destruct Hinv as [Hn Hp].
+  rewrite ECDD_update_eq by lia.
+  rewrite <- ecdd_run_snoc. replace (pre ++ v :: r) with ((pre ++ [v]) ++ r) by (rewrite <- app_assoc; reflexivity).
+  apply IH.
+Qed.
+
+(** C03 (ECDD-WT clause) over the source-derived definitions: from the state reset() produces (lambda_ in [0,1], as
+    the configuration constructor enforces), after any real stream no update raises and (drift, warning) is the
+    verdict of the EWMA chart against the Ross et al. polynomial for the configured average run length. *)
+Theorem src_ecdd_refines_spec : forall (c : ecdd_cfg RealA) (s0 : ecdd_st RealA) (vs : list R),
+  (1 <= ec_min c)%Z -> (0 <= ec_lambda c <= 1)%R ->
+  match ECDDWT_reset (ecdd_t c s0) with
+  | Ok (s1, _) => exists n d p z w l2, g_run ECDDWT__update s1 vs = Ok (ecdd_cfg_t c, n, d, p, z, w, l2) /\
+      verdict_of d w = ecdd_spec (ec_lambda c) (ec_arl c) (ec_warn c) (Z.to_nat (ec_min c)) (rev vs)
+  | Raise _ => False
+  end.
+Proof.
+  intros c s0 vs Hc [Hl0 Hl1]. rewrite ECDD_reset_eq.
+  - cbv beta iota. eexists _, _, _, _, _, _. split; [exact (g_ecdd_run_eq c vs [])|].
+    cbn [app]. apply ecdd_refines_spec. exact Hc.
+  - cbn. apply andb_true_intro. split; apply Rleb_true; assumption.
+Qed.
+Print Assumptions src_ecdd_refines_spec.
